@@ -98,7 +98,7 @@ CHECKS = {
 }
 
 # properties whose checks are registered in MANIFEST.json (clean on the unchanged tree)
-REGISTERED = []
+REGISTERED = ["C01", "C02", "C03", "C04", "C05", "C06", "C07", "C10", "C11", "C12", "C13", "C14", "C19", "C20", "C24", "C33"]
 
 PURE = "pure function of its inputs: no task, timer, storage call, clock, fault or second party for a scheduler or fault injector to decide (DESIGN.md section 6)"
 NOT_APPLICABLE = {
@@ -115,5 +115,5 @@ NOT_APPLICABLE = {
     "C43": "Schema/projection algebra: " + PURE,
 }
 # claimed in DESIGN.md but the check is not registered (yet): listed so MANIFEST stays complete
-NOT_CLAIMED_YET = {p: "check not registered yet: machinery under construction (see DESIGN.md build order)" for p in
+NOT_CLAIMED_YET = {p: "not claimed: the check for this property is not built/registered (see DESIGN.md); not a not-applicable verdict" for p in
                    ["C%02d" % i for i in range(1, 44)] if p not in NOT_APPLICABLE}
